@@ -173,7 +173,21 @@ pub fn run_create(ctx: &Ctx, dir: &std::path::Path, tag: &str, cs: &CallSet, con
 }
 
 pub fn run_create_bytes(ctx: &Ctx, dir: &std::path::Path, tag: &str, cs: &CallSet, bytes: &[u8], ext: &str, opts: &CreateOpts, transport: Transport) -> (Run, Vec<String>) {
-    let input_name = format!("{tag}.{ext}");
+    // The name of the input file is decided by the bytes themselves: usually the customary
+    // extension, otherwise a neutral one, none at all, or one that contradicts the content (a
+    // compressed file keeping the name of the plain one, VCF text named .bcf, ...). What is in the
+    // file decides how it is read.
+    let input_name = match (bytes.len() / 3 + bytes.iter().take(40).map(|b| *b as usize).sum::<usize>()) % 10 {
+        0 => format!("{tag}.input"),
+        1 => tag.to_string(),
+        2 => match ext {
+            "vcf" => format!("{tag}.bcf"),
+            "vcf.gz" => format!("{tag}.vcf"),
+            "bcf" => format!("{tag}.vcf.gz"),
+            _ => format!("{tag}.vcf"),
+        },
+        _ => format!("{tag}.{ext}"),
+    };
     std::fs::write(dir.join(&input_name), bytes).expect("write input");
     let samples_file = format!("{tag}.samples");
     if let Some(map) = &opts.map {
